@@ -190,6 +190,9 @@ func (s *S) snapshotAtReturn(d time.Duration) {
 }
 
 func (s *S) Check(c *scen.Ctx, res *simrt.Result) {
+	if s.panicMode {
+		c.ExpectExit()
+	}
 	if res.Status == "exit" && s.panicMode {
 		// CheckPanic flushed and called os.Exit: what the writers hold now is
 		// everything that will ever be written.
